@@ -29,7 +29,8 @@ from ..world import run_flavor, exc_name
 ID = "C18"
 LEVEL = "translation_validation"
 RULE = ("programs = single-caller scenarios drawn from the generators of C02, C05, C09, C11, C15 and C17 (seeded); each is "
-        "executed on asyncio, trio and sync; a program is distinct by (kind, parameters); disagreements_checked counts the "
+        "executed on asyncio, trio and sync (plus 'nested' programs: a second request / use of the upgraded stream between reading "
+        "a streamed body to its end and closing the response); a program is distinct by (kind, parameters); disagreements_checked counts the "
         "pairwise comparisons (trace, outcome, state, executed-line sets) performed")
 ASSUMPTIONS = ["class-name prefixes 'Async' and the a-prefixed method names are the only textual differences allowed in reprs and "
                "messages", "executed-line equality holds because scripts/unasync.py is line-preserving; lines the corpus "
@@ -193,7 +194,50 @@ async def prog_mutated(flavor, p):
     return {"out": out, "state": state}
 
 
-PROGS = {"response": prog_response, "fault": prog_fault, "history": prog_history, "handover": prog_handover,
+async def prog_nested(flavor, p):
+    """Things that happen between reading a streamed body to the end and closing the response."""
+    from .. import endpoints
+    from ..endpoints import Resp
+    from ..world import mk_pool, API, guarded, pool_counts
+    net = simnet.Net()
+    kind = p["kind"]
+
+    def responder(req, origin):
+        if req.target == b"/ws":
+            return Resp(101, b"Switching Protocols", [(b"Connection", b"upgrade"), (b"Upgrade", b"hv")], b"", framing="none",
+                        after=b"after-head-data")
+        return endpoints.echo_responder(req, origin)
+    h2 = p["proto"] == "h2"
+    o = endpoints.Origin(net, "o.test", 443 if h2 else 80, tls=h2, alpn=["h2"] if h2 else None, responder=responder)
+    pool = mk_pool(flavor, net, max_connections=1, http2=h2)
+    api = API(flavor, pool, net)
+    scheme = "https" if h2 else "http"
+    info = {}
+
+    async def scen():
+        if kind == "upgrade":
+            resp, cm = await api.open("GET", f"{scheme}://o.test/ws", headers=[("Connection", "upgrade"), ("Upgrade", "hv")])
+        else:
+            resp, cm = await api.open("GET", f"{scheme}://o.test/a", headers=[("X-Token", "a")])
+        chunks = await api.chunks(resp)          # the body is read to its end ...
+        info["body"] = b"".join(chunks)
+        info["state_after_read"] = [norm_text(repr(pool)), [norm_text(c.info()) for c in pool.connections]]
+        if kind == "upgrade":
+            ns = resp.extensions["network_stream"]
+            info["upgraded_read"] = await guarded(flavor, lambda: api.ns_read(ns, 100, 5.0))
+        else:
+            # ... and before the response is closed another request is made on the full pool
+            info["nested"] = await guarded(flavor, lambda: api.request("GET", f"{scheme}://o.test/b", headers=[("X-Token", "b")],
+                                                                       extensions={"timeout": {"pool": 1.0}}))
+        await api.close(cm)
+        info["state_after_close"] = [norm_text(repr(pool)), [norm_text(c.info()) for c in pool.connections]]
+        return resp.status
+    out = await guarded(flavor, scen)
+    await guarded(flavor, api.close_pool)
+    return {"out": out, "info": info}
+
+
+PROGS = {"nested": prog_nested, "response": prog_response, "fault": prog_fault, "history": prog_history, "handover": prog_handover,
          "proxy": prog_proxy, "mutated": prog_mutated}
 
 
@@ -377,6 +421,10 @@ def plan(tier, seed):
         wire = gen.build_resp(spec).serialise()
         raw, kind = c15.mutate_bytes(r, wire)
         progs.append(["mutated", {"raw": raw[:4000].decode("latin1"), "mutation": kind}])
+    for proto in ("h1", "h2"):
+        for kind in ("request", "upgrade"):
+            if not (proto == "h2" and kind == "upgrade"):
+                progs.append(["nested", {"proto": proto, "kind": kind}])
     r.shuffle(progs)
     n_cases = 30
     cases = [{"programs": progs[i::n_cases], "seed": seed + i} for i in range(n_cases)]
